@@ -26,6 +26,10 @@ CLAIMED = {
             "Theorems (Properties_C19.v): every invalid CLI configuration ends in log.Fatalf naming a step, never a panic (pre-fix runner refuted); for EVERY history of analyzer passes with arbitrarily changing flags no pass panics, an invalid configuration yields one init error followed only by skipped passes whatever the number of packages, a valid one behaves uniformly, and diagnostics only come from a fully initialised configuration (invariant cache_ok); the pre-fix second-pass nil dereference is refuted. Tie: all histories of length <= 3 over five flag configurations plus random longer ones are driven through Analyzer.Run in-process from a reset global state and compared in Coq with run_passes; the CLI step order is tied by single and paired faults on both mains. Oracle: fault matrix {bad -go, empty selection, unknown failOn, rules pattern without match, unparsable parameter, loader failure} x package counts x four binaries: non-zero exit, message names the problem, no panic/goroutine trace, no diagnostics; broken target packages (syntax/type errors, unresolved import, mixed package clauses) must not crash.",
             "Trusted: Coq kernel + vm_compute; configurations are abstracted to outcomes of fallible steps; go/packages behaviour on broken packages is oracle-only (partial).",
             "§5 C19"),
+    "C14": ("Coq theorems over aliasing parameter cells, threshold predicates and gc sizes + boundary-construct and flag-plumbing correspondence through three front-ends",
+            "Theorems (Properties_C14.v): for every registry with injective cells, every flag list and every parameter, the value the constructor reads after a front-end ran equals the last command-line occurrence or else the registered default (C14_flag_value_is_used); an integrator's write through GetCheckersInfo's info is seen (and would be lost with a deep copy: refuted variant); each threshold predicate is monotone and has the documented exact boundary (size >= threshold reported; exactly maxResults results not reported; bodyWidth statements reported; a chain of exactly minThreshold branches reported; a comment of exactly minLength runes not skipped); countIfelseLen's closed form by induction on the chain. Tie: generated constructs of measure exactly N run at thresholds N-1, N, N+1, 0, 1, 2^30 with the parameter overridden through CheckerInfo.Params, verdicts compared in Coq; random type terms: model gc_sizeof = go/types size = quoted '(N bytes)' = unsafe.Sizeof of a compiled program; random flag lists (incl. repeated flags) through both CLI mains and the analyzer flag set vs run_frontend; CLI/analyzer end-to-end runs with -@hugeParam.sizeThreshold. Oracle: documented boundaries, monotonicity of report sets, parameter values after flag parsing.",
+            "Trusted: Coq kernel + vm_compute; bridge op 'params', analyzer hooks; gc sizes modelled for amd64 only; values compared in printed form; ruleguard's own parameters are C18's subject.",
+            "§5 C14"),
 }
 
 NOT_APPLICABLE = {}
